@@ -87,6 +87,46 @@ pub fn gen_junk(r: &mut Rng, n: usize) -> Vec<u8> {
     v
 }
 
+/// Pattern-free junk of a *regular* shape (one byte repeated, near-miss patterns repeated, long runs of a few
+/// values): the shapes on which a search or a diagnostic that is not linear in the junk length shows.
+pub fn gen_regular_junk(r: &mut Rng, n: usize) -> Vec<u8> {
+    let unit: Vec<u8> = match r.below(8) {
+        0 => vec![0x00],
+        1 => vec![0xFF],
+        2 => vec![r.u8()],
+        3 => vec![b'D'],
+        4 => vec![b'D', b'L', b'T'],
+        5 => vec![b'D', b'L', b'T', 0x02],
+        6 => vec![b'D', b'D', b'L', b'T', 0x00, 0x01],
+        _ => vec![0x01],
+    };
+    let mut v: Vec<u8> = if r.chance(1, 4) {
+        // long runs of alternating values
+        let mut v = Vec::with_capacity(n);
+        let vals = [unit[0], r.u8(), 0x00];
+        let mut k = 0;
+        while v.len() < n {
+            let run = r.range(1000, 400_000) as usize;
+            let b = vals[k % 3];
+            k += 1;
+            let take = run.min(n - v.len());
+            v.extend(std::iter::repeat(b).take(take));
+        }
+        v
+    } else {
+        (0..n).map(|k| unit[k % unit.len()]).collect()
+    };
+    // no accidental pattern (the units above cannot form one, the alternating runs could at a seam)
+    let mut i = 0;
+    while i + 4 <= v.len() {
+        if v[i..i + 4] == [0x44, 0x4C, 0x54, 0x01] {
+            v[i + 3] = 0x02;
+        }
+        i += 1;
+    }
+    v
+}
+
 /// Apply one operator; returns its name. `light` forbids the huge-tail operators.
 pub fn mutate_once(r: &mut Rng, e: &Encoded, b: &mut Vec<u8>, light: bool) -> &'static str {
     let be_payload = b.len() > e.std_start && b[e.std_start] & 2 != 0;
